@@ -359,6 +359,24 @@ func init() {
 		fill(dp.C)
 		return VBool{BoolC(true)}
 	}
+	verifHooks["verifAssign"] = func(e *Exec, a []Value) Value {
+		dst, ok1 := a[0].(VIface)
+		src, ok2 := a[1].(VIface)
+		if !ok1 || !ok2 || dst.Typ == nil || src.Typ == nil {
+			return VBool{BoolC(false)}
+		}
+		dt, ok1 := dst.Typ.(*types.Pointer)
+		st, ok2 := src.Typ.(*types.Pointer)
+		if !ok1 || !ok2 || !types.Identical(dt.Elem().Underlying(), st.Elem().Underlying()) {
+			return VBool{BoolC(false)}
+		}
+		dp, sp := dst.Val.(VPtr), src.Val.(VPtr)
+		if dp.C == nil || sp.C == nil {
+			return VBool{BoolC(false)}
+		}
+		store(dp.C, load(sp.C))
+		return VBool{BoolC(true)}
+	}
 	verifHooks["verifBoundExceeded"] = func(e *Exec, a []Value) Value {
 		e.unwound = append(e.unwound, "contract bound: "+strArg(a[0]))
 		panic(pathEnd{"BOUND " + strArg(a[0])})
@@ -390,12 +408,12 @@ func init() {
 			e.sol.DeclareFun(name, "(Int) Int")
 			t := app(SInt, name, abs)
 			e.sol.Assert(And(IntCmp(">=", t, IntC(big.NewInt(1))), IntCmp("<=", t, IntC(big.NewInt(64)))))
-			return VInt{t}
+			return VInt{e.concretise(t)}
 		}
 		e.sol.DeclareFun(name, "((_ BitVec 64)) (_ BitVec 64)")
 		t := app(64, name, abs)
 		e.sol.Assert(And(BVBin(">=", t, BVu(64, 1), false), BVBin("<=", t, BVu(64, 64), false)))
-		return VInt{t}
+		return VInt{e.concretise(t)}
 	}
 	B := "(*math/big.Int)."
 	bin := func(op string) intrinsic {
@@ -542,7 +560,7 @@ func init() {
 		out := make([]byte, 0, 2*len(bs))
 		for _, b := range bs {
 			if !b.Const {
-				e.fail("hex.EncodeToString of symbolic bytes")
+				return VStr{"<hex of symbolic bytes>"} // only ever used in messages
 			}
 			out = append(out, "0123456789abcdef"[b.U.Uint64()>>4], "0123456789abcdef"[b.U.Uint64()&15])
 		}
@@ -634,4 +652,42 @@ func (e *Exec) flatKey(v Value, depth int) string {
 		return "nil"
 	}
 	return fmt.Sprintf("%T", v)
+}
+
+// concretise returns the constant a term is forced to by the current path condition, or the
+// term itself when more than one value is possible.
+func (e *Exec) concretise(t Term) Term {
+	if t.Const {
+		return t
+	}
+	if e.sol.Check() != "sat" {
+		return t
+	}
+	probe := fmt.Sprintf("cz!%d", e.nondet)
+	e.nondet++
+	e.sol.Declare(probe, t.Sort)
+	pt := Term{S: probe, Sort: t.Sort}
+	e.sol.Assert(Eq(pt, t))
+	if e.sol.Check() != "sat" {
+		return t
+	}
+	vals := e.sol.GetValues([]string{probe})
+	v, ok := new(big.Int).SetString(vals[probe], 10)
+	if !ok {
+		return t
+	}
+	var c Term
+	if t.Sort == SInt {
+		c = IntC(v)
+	} else {
+		c = BV(t.Sort, v)
+	}
+	e.sol.Push()
+	e.sol.Assert(Not(Eq(t, c)))
+	r := e.sol.Check()
+	e.sol.Pop()
+	if r == "unsat" {
+		return c
+	}
+	return t
 }
